@@ -1,6 +1,8 @@
 package fam
 
 import (
+	"strconv"
+	"math"
 	"encoding/json"
 	"math/rand"
 	"strings"
@@ -34,7 +36,7 @@ type cCfg struct {
 }
 type cProxyObs struct {
 	Present bool     `json:"present"`
-	Count   int      `json:"count"`
+	Count   string   `json:"count"`
 	Aud     []string `json:"aud"`
 }
 type cObs struct {
@@ -130,6 +132,10 @@ func (Cond) Run(c *orch.Case) *orch.Outcome {
 			p.Count = idp.I(1)
 		case "5":
 			p.Count = idp.I(5)
+		case "neg":
+			p.Count = idp.I(-1)
+		case "max":
+			p.Count = idp.I(math.MaxInt64)
 		}
 		for _, t := range in.Proxy.Aud {
 			p.Audiences = append(p.Audiences, audTok[t])
@@ -170,7 +176,7 @@ func (Cond) Run(c *orch.Case) *orch.Outcome {
 		sp.AudienceURI = cfgAudience(cfg.Aud)
 		return sp
 	})
-	o := &cObs{Proxy: cProxyObs{Aud: []string{}}}
+	o := &cObs{Proxy: cProxyObs{Aud: []string{}, Count: "0"}}
 	func() {
 		defer func() {
 			if r := recover(); r != nil {
@@ -182,7 +188,17 @@ func (Cond) Run(c *orch.Case) *orch.Outcome {
 		if o.Res == "accept" && r.WarningInfo != nil {
 			o.Nia, o.Otu, o.Time = r.WarningInfo.NotInAudience, r.WarningInfo.OneTimeUse, r.WarningInfo.InvalidTime
 			if p := r.WarningInfo.ProxyRestriction; p != nil {
-				o.Proxy.Present, o.Proxy.Count = true, p.Count
+				o.Proxy.Present = true
+				switch p.Count {
+				case 0, 1, 5:
+					o.Proxy.Count = strconv.Itoa(p.Count)
+				case -1:
+					o.Proxy.Count = "neg"
+				case math.MaxInt64:
+					o.Proxy.Count = "max"
+				default:
+					o.Proxy.Count = "other:" + strconv.Itoa(p.Count)
+				}
 				for _, a := range p.Audience {
 					o.Proxy.Aud = append(o.Proxy.Aud, tokOfAud(a))
 				}
